@@ -77,7 +77,7 @@ func runLib(mi *machineInfo, c libCase) (res libResult) {
 			res.Err = r.err.Error()
 		}
 		res.Out = r.out
-	case <-time.After(20 * time.Second):
+	case <-time.After(90 * time.Second):
 		res.Hang = true
 	}
 	return
@@ -116,7 +116,7 @@ func libOutcome(r libResult) outcome {
 	var o outcome
 	o.Header = []string{}
 	if r.Hang {
-		o.Abort = "no result within 20s"
+		o.Abort = "no result within 90s"
 		return o
 	}
 	if r.Err != "" {
